@@ -2,7 +2,7 @@
 
 
 def family(usize=2):
-    D = {'T': 2}
+    D = {'T': usize}
     S = []
 
     def g(name, nts, terms, rules, linear, start='S'):
